@@ -1305,21 +1305,28 @@ class Trust(Packet):
         super(Trust, self).__init__()
         self.trustlevel = TrustLevel.Unknown
         self.trustflags = []
+        self._body = None
 
     def __bytearray__(self):
         _bytes = bytearray()
         _bytes += super(Trust, self).__bytearray__()
+        if self._body is not None:
+            # the format of a trust packet is up to the implementation that wrote it (RFC 4880, section 5.10): kept as read
+            _bytes += self._body
+            return _bytes
+
         _bytes += self.int_to_bytes(self.trustlevel + sum(self.trustflags), 2)
         return _bytes
 
     def parse(self, packet):
         super(Trust, self).parse(packet)
-        # self.trustlevel = packet[0] & 0x1f
-        t = self.bytes_to_int(packet[:2])
-        del packet[:2]
+        self._body = packet[:self.header.length]
+        del packet[:self.header.length]
 
-        self.trustlevel = t
-        self.trustflags = t
+        if len(self._body) >= 2:
+            t = self.bytes_to_int(self._body[:2])
+            self.trustlevel = t
+            self.trustflags = t
 
 
 class UserID(Packet):
